@@ -17,7 +17,9 @@ META = {
 ALLOWED_AXIOMS = ()
 
 C14_VOS = ["Base/Conv.vo", "DD/Table.vo", "DD/TableExtra.vo", "DD/Sem.vo", "DD/Build.vo", "DD/Apply.vo", "Mgr/Oom.vo",
-           "Mgr/Conc.vo", "Mgr/OomOwn.vo", "Mgr/OomOwnTie.vo"]
+           "Mgr/Conc.vo", "Mgr/OomOwn.vo", "Mgr/OomOwnTie.vo",
+           "Num/I64.vo", "DD/ApplyBcdd.vo", "DD/FamSpec.vo", "DD/ZbddOps.vo", "DD/ZbddBool.vo", "DD/ApplyMtbdd.vo",
+           "Mgr/OomGen.vo", "Mgr/OomBcdd.vo", "Mgr/OomZbdd.vo", "Mgr/OomMtbdd.vo"]
 PROPS = ["C14", "C01", "C02", "C03", "C04", "C05", "C09", "C10", "C13"]
 BIG = 1 << 14
 
